@@ -134,8 +134,12 @@ ConnectsVia(m, x) ==       \* x = the parent to start from
   IF x \in NextBlocks(m) THEN ConnectsVia(m, Par(x))
   ELSE x \in InTree(m.T)
 
+\* ("long": the 80 header bytes followed by more bytes.  state.rs insert_next_block_headers decodes with
+\* consensus_decode, which reads the header and ignores what follows, so such a blob is the header; no
+\* listed property says otherwise.  Found by the thorough tier as a disagreement between this specification
+\* - which had it fail - and the code: the specification was wrong.)
 HeaderVerdict(m, item) ==    \* "skip" | "ok" | "fail"
-  IF item.as # "valid" \/ item.b = 0 THEN "fail"
+  IF item.as \notin {"valid", "long"} \/ item.b = 0 THEN "fail"
   ELSE IF item.b \in NextBlocks(m) THEN "skip"
   ELSE IF Par(item.b) = 0 THEN "fail"
   ELSE IF ~ConnectsVia(m, Par(item.b)) THEN "fail"
@@ -203,7 +207,7 @@ FeeStep(m) == IF m.cfg.lazy THEN m ELSE [m EXCEPT !.fee = FeeEval(m).fee]
 RequestFor(m) ==
   IF m.sync.resp.k = "complete" THEN NoReq
   ELSE IF m.sync.resp.k = "partial" THEN [k |-> "followup", i |-> m.sync.resp.got]
-  ELSE LET pre == Preorder(m.T, m.T.anchor)
+  ELSE LET pre == PreorderFast(m.T)
        IN [k |-> "initial", anchor |-> m.T.anchor, processed |-> Tail(pre)]
 
 WillCall(m) == m.cfg.syncing /\ ~m.sync.fetching /\ RequestFor(m).k # "none"
@@ -373,7 +377,8 @@ QInfo(m) ==
 \* plus the output/input counts of the unstable best chain (OP_RETURN included)
 StableTop(m) == IF Len(m.stable) = 0 THEN 0 ELSE m.stable[Len(m.stable)]
 UtxosLength(m) ==
-  LET v == Cardinality(LedgerAt(StableTop(m))) + SumSeq([i \in 1..Len(Best(m)) |-> UtxoDelta(Best(m)[i])])
+  LET bc == Best(m)
+      v == Cardinality(LedgerAt(StableTop(m))) + SumSeq([i \in 1..Len(bc) |-> UtxoDelta(bc[i])])
   IN IF v < 0 THEN 0 ELSE v
 
 \* C04: the block that a request with min_confirmations = c is answered as of.
